@@ -1,9 +1,15 @@
 package c04
 
 import (
+	"context"
+	"encoding/json"
 	"fmt"
 	"math/rand"
+	"os"
+	"os/exec"
+	"path/filepath"
 	"sort"
+	"time"
 
 	"verifh/hx"
 )
@@ -243,13 +249,112 @@ func genStress(r *rand.Rand, i int, thorough bool) (hx.T, []string) {
 		}
 		tags = append(tags, "stress-lopsided")
 	}
+	// mode, then the overflow amounts [local, global, post, timer, session messages, requests]
+	cfg = append(cfg, 0, 0, 0, 0, 0, 0, 0)
+	over := func(lo, hi int) int64 { return 999 + pick(lo, hi) } // queues hold 999
+	switch i % 8 {
+	case 1, 5: // every bounded queue of the service overflows while the service is busy
+		if i%16 == 5 {
+			cfg[16] = over(1, 300)
+			tags = append(tags, "overflow-global")
+		} else {
+			cfg[15] = over(1, 300)
+			tags = append(tags, "overflow-local")
+		}
+		cfg[17], cfg[18], cfg[19], cfg[20] = over(1, 200), over(1, 150), pick(5, 60), pick(200, 1300)
+		tags = append(tags, "overflow")
+	case 2: // one queue only, far beyond its capacity
+		j := 15 + r.Intn(4)
+		cfg[j] = 999 + pick(300, 1200)
+		tags = append(tags, "overflow", "overflow-single")
+	case 3:
+		cfg[14] = 1
+		tags = append(tags, "restart")
+	case 7:
+		cfg[14] = 2
+		tags = append(tags, "spawn-twice")
+	}
+	if i%16 == 11 { // restarted service, then an overflow
+		cfg[15], cfg[17] = over(1, 100), over(1, 100)
+		tags = append(tags, "overflow")
+	}
 	return hx.C("OStress", r.Int63n(1<<30), cfg), tags
 }
 
 // ---- entry point ----
 
+// A measurement runs in a child process (this binary, replaying the one OStress op): when a
+// service's code does run on two goroutines its unsynchronised state can take the whole Go
+// runtime down ("fatal error: concurrent map writes" cannot be recovered) - that must become
+// an observation (EPanic), not the end of the harness.
+const childEnv = "C04_STRESS_CHILD"
+
+var scratchDir string
+
+func stressIsolated(o hx.T) any {
+	if os.Getenv(childEnv) != "" {
+		return runStress(o.Int(0), o.Ints(1))
+	}
+	self, err := os.Executable()
+	if err != nil {
+		panic(err)
+	}
+	dir, err := os.MkdirTemp(scratchDir, "c04-stress-")
+	if err != nil {
+		panic(err)
+	}
+	defer os.RemoveAll(dir)
+	in, out := filepath.Join(dir, "in.jsonl"), filepath.Join(dir, "out.jsonl")
+	b, _ := json.Marshal(map[string]any{"ops": []any{o}})
+	if err := os.WriteFile(in, append(b, '\n'), 0o644); err != nil {
+		panic(err)
+	}
+	ctx, cancel := context.WithTimeout(context.Background(), 60*time.Second)
+	defer cancel()
+	cmd := exec.CommandContext(ctx, self, "C04", "--in", in, "--out", out, "--scratch", dir)
+	cmd.Env = append(os.Environ(), childEnv+"=1")
+	cmd.Dir = dir
+	runErr := cmd.Run()
+	if ctx.Err() != nil {
+		return "EStuck"
+	}
+	if runErr == nil {
+		if cs, err := readObs(out); err == nil && len(cs) == 1 {
+			return cs[0]
+		}
+	}
+	return "EPanic"
+}
+
+// readObs returns the event of the single observation of each case in a harness output file
+func readObs(path string) ([]any, error) {
+	f, err := os.Open(path)
+	if err != nil {
+		return nil, err
+	}
+	defer f.Close()
+	var res []any
+	dec := json.NewDecoder(f)
+	dec.UseNumber()
+	for dec.More() {
+		var c struct {
+			Obs any `json:"obs"`
+		}
+		if err := dec.Decode(&c); err != nil {
+			return nil, err
+		}
+		obs, ok := hx.FromJSON(c.Obs).([]any)
+		if !ok || len(obs) != 1 {
+			return nil, fmt.Errorf("unexpected child output")
+		}
+		res = append(res, hx.AsTerm(obs[0]).Args[0])
+	}
+	return res, nil
+}
+
 func Run(cfg *hx.Config) error {
 	quiet()
+	scratchDir = cfg.Scratch
 	emit := func(kind string, ops []hx.T, tags []string) {
 		out, obs, nt := execScript(ops)
 		cfg.Emit(hx.Case{Kind: kind, Ops: out, Obs: obs, Nontrivial: nt, Tags: tags})
@@ -283,7 +388,7 @@ func Run(cfg *hx.Config) error {
 		ops, tags := genScript(cfg.Rng, maxLen)
 		emit("random", ops, tags)
 	}
-	nStress := 12
+	nStress := 16
 	if thorough {
 		nStress = 150
 	}
